@@ -177,6 +177,8 @@ struct Shared {
     /// mt mode: `yield_now` calls at the entry of every contained-future poll (the owner is then in
     /// the middle of the deque's slot scan).
     poll_yields: u8,
+    /// Rendezvous counters of the mt mode.
+    rv: [std::sync::atomic::AtomicU32; 4],
     st: Mutex<State>,
 }
 
@@ -199,8 +201,20 @@ impl Shared {
             exact,
             keep_log,
             poll_yields,
+            rv: [const { std::sync::atomic::AtomicU32::new(0) }; 4],
             st: Mutex::new(State::default()),
         })
+    }
+
+    /// Two-party rendezvous without any memory ordering (and bounded: never a harness deadlock).
+    fn sync(&self, id: u8) {
+        let c = &self.rv[usize::from(id) % self.rv.len()];
+        c.fetch_add(1, Ordering::Relaxed);
+        let mut spins = 0_u32;
+        while c.load(Ordering::Relaxed) < 2 && spins < 2000 {
+            std::thread::yield_now();
+            spins += 1;
+        }
     }
 
     fn tick(&self) -> u64 {
@@ -1232,6 +1246,9 @@ impl HistScenario {
 
 #[derive(Clone, Copy, Debug, Serialize, Deserialize, PartialEq, Eq)]
 enum TOp {
+    /// Rendezvous with the owner's `MOp::Sync` of the same id (bounded, Relaxed): the operations
+    /// that follow on both sides start at the same moment.
+    Sync(u8),
     Wake(u8),
     WakeByRef(u8),
     Clone(u8),
@@ -1258,6 +1275,8 @@ enum MOp {
     DropStash(u8),
     DropDeque,
     Yield(u8),
+    /// See `TOp::Sync`.
+    Sync(u8),
 }
 
 #[derive(Clone, Copy, Debug, Default, Serialize, Deserialize, PartialEq, Eq)]
@@ -1316,6 +1335,7 @@ fn run_thread(sh: &Shared, t: usize, script: &TScript, mut table: Vec<(usize, Op
         };
         match *op {
             TOp::Yield(n) => yields(n),
+            TOp::Sync(id) => sh.sync(id),
             TOp::Wake(sel) => {
                 let Some(i) = pick(&table, sel) else { continue };
                 let fid = table[i].0;
@@ -1451,6 +1471,7 @@ impl MtScenario {
                     }
                     MOp::DropDeque => dr.drop_deque()?,
                     MOp::Yield(n) => yields(*n),
+                    MOp::Sync(id) => sh.sync(*id),
                 }
                 dr.invariants()
             })();
@@ -1628,6 +1649,31 @@ impl Scenario for MtScenario {
             if stop {
                 break;
             }
+        }
+        // Aligned tail: the owner's last poll (under the *other* parent waker) and a cross-thread
+        // wake start at the same moment - the parent update, the activation-flag swap and the slot
+        // scan of one poll against the steps of one wake.
+        let mut threads: Vec<TScript> = threads;
+        if !matches!(main.last(), Some(MOp::DropDeque)) && rng.chance(1, 2) {
+            let last_parent = main
+                .iter()
+                .rev()
+                .find_map(|o| if let MOp::Poll { parent, .. } = o { Some(*parent) } else { None });
+            let parent = match last_parent {
+                Some(p) => (p + 1) % N_PARENTS as u8,
+                None => rng.below(N_PARENTS as u64) as u8,
+            };
+            main.push(MOp::Sync(0));
+            if rng.bool() {
+                main.push(MOp::Yield(rng.range(1, 3) as u8));
+            }
+            main.push(MOp::Poll { kind: gen_poll_kind(rng), parent });
+            let t = &mut threads[0];
+            t.ops.push(TOp::Sync(0));
+            if rng.bool() {
+                t.ops.push(TOp::Yield(rng.range(1, 3) as u8));
+            }
+            t.ops.push(if rng.bool() { TOp::WakeByRef(rng.below(8) as u8) } else { TOp::Wake(rng.below(8) as u8) });
         }
         let local = rng.bool();
         Self {
